@@ -413,13 +413,15 @@ pub fn random_runs(args: &pv_core::Args) {
     let seed = args.seed();
     let runs = args.num("runs", 5);
     let events = args.num("events", 200);
-    let npeers = args.num("peers", 6);
+    let npeers_arg = args.num("peers", 6);
     let snap = args.num("snap", 0) == 1;
     let mut log = Ndjson::create(args.get("out"));
     let mut stats = BTreeMap::<String, u64>::new();
     for run in 0..runs {
         let mut rng = Rng::new(seed.wrapping_mul(1_000_003).wrapping_add(run * 7919 + mode.len() as u64));
         let strict = mode == "c28";
+        // C28: every second run concentrates on 3 peers so that single connections get deep into the protocols
+        let npeers = if mode == "c28" && run % 2 == 1 { npeers_arg.min(3) } else { npeers_arg };
         let cfg = match mode.as_str() {
             "c27" => Cfg {
                 max_peers: *rng.pick(&[3usize, 6, 12, 20]),
@@ -463,7 +465,7 @@ pub fn random_runs(args: &pv_core::Args) {
                 let bw = if mode == "c27" { 2 } else { 1 };
                 c.push((bw, Step::new("ban", t)));
                 c.push((bw, Step::new("demote", t)));
-                c.push((6, Step::new("contsync", *rng.pick(&tracked))));
+                c.push((if mode == "c28" { 10 } else { 6 }, Step::new("contsync", *rng.pick(&tracked))));
                 c.push((disc_w, Step::new("disconnected", *rng.pick(&tracked))));
                 c.push((err_w, Step::new("error", *rng.pick(&tracked))));
                 if d.cfg.leios {
